@@ -217,7 +217,7 @@ func ruleLockset(c *Ctx) {
 				if !ok {
 					why = fmt.Sprintf("%s of %s without the lock held on every path: concurrent Get/Set on a shared cache race", kind, exprString(a.expr))
 					// audited exception: len(store) sizing hint in the clone of the immutable base cache
-					if !a.write && c.isLenArg(fd, a.expr) && fd.Name.Name == "ShallowClone" && c.shallowCloneOnlyOnResCache() {
+					if !a.write && c.isLenArg(fd, a.expr) && c.onlyServesShallowClone(fd) && c.shallowCloneOnlyOnResCache() {
 						ok, why = true, ""
 						c.note("lockset exception %s: len(store) read before RLock in ShallowClone is sound only because ShallowClone is invoked solely on resCache, which the globals rule proves is never written after its sync.Once initialisation", key)
 					}
@@ -628,7 +628,6 @@ func ruleGlobals(c *Ctx) {
 		if sc := c.decl(c.method("simpleCache", "ShallowClone")); sc != nil {
 			c.saw(c.funcName(sc))
 			fresh := false
-			defs := c.localDefs(sc)
 			ast.Inspect(sc.Body, func(n ast.Node) bool {
 				rs, ok := n.(*ast.ReturnStmt)
 				if !ok || len(rs.Results) != 1 {
@@ -647,12 +646,8 @@ func ruleGlobals(c *Ctx) {
 					if !ok {
 						continue
 					}
-					if id, ok := unparen(kv.Value).(*ast.Ident); ok {
-						for _, d := range defs[c.objOf(id)] {
-							if call, ok := unparen(d).(*ast.CallExpr); ok && c.isBuiltin(call, "make") {
-								fresh = true
-							}
-						}
+					if c.freshMapExpr(sc, kv.Value, 0) {
+						fresh = true
 					}
 				}
 				return true
@@ -878,4 +873,77 @@ func benignGlobalMethod(f *types.Func) bool {
 	}
 	// the package cache's own read-only clone
 	return f.Name() == "ShallowClone"
+}
+
+// freshMapExpr: the expression evaluates to a map made in this call chain (make / literal), possibly handed back by a helper.
+func (c *Ctx) freshMapExpr(fd *ast.FuncDecl, e ast.Expr, depth int) bool {
+	if depth > 2 {
+		return false
+	}
+	e = unparen(e)
+	switch x := e.(type) {
+	case *ast.CompositeLit:
+		return true
+	case *ast.CallExpr:
+		if c.isBuiltin(x, "make") {
+			return true
+		}
+		if g, ok := c.callee(x).(*types.Func); ok && g.Pkg() == c.Types {
+			gfd := c.decl(g)
+			if gfd == nil || gfd.Body == nil {
+				return false
+			}
+			all, n := true, 0
+			ast.Inspect(gfd.Body, func(nd ast.Node) bool {
+				if rs, ok := nd.(*ast.ReturnStmt); ok && len(rs.Results) == 1 {
+					n++
+					if !c.freshMapExpr(gfd, rs.Results[0], depth+1) {
+						all = false
+					}
+				}
+				return true
+			})
+			return all && n > 0
+		}
+	case *ast.Ident:
+		ds := c.localDefs(fd)[c.objOf(x)]
+		if len(ds) == 0 {
+			return false
+		}
+		for _, d := range ds {
+			if d == nil || !c.freshMapExpr(fd, d, depth+1) {
+				return false
+			}
+		}
+		return true
+	}
+	return false
+}
+
+// onlyServesShallowClone: the function is ShallowClone itself or an unexported helper whose every package caller is.
+func (c *Ctx) onlyServesShallowClone(fd *ast.FuncDecl) bool {
+	if fd.Name.Name == "ShallowClone" {
+		return true
+	}
+	self, _ := c.Info.Defs[fd.Name].(*types.Func)
+	if self == nil || self.Exported() {
+		return false
+	}
+	n := 0
+	ok := true
+	for _, g := range c.allFuncDecls() {
+		f, _ := c.Info.Defs[g.Name].(*types.Func)
+		if f == nil || f == self {
+			continue
+		}
+		for _, h := range c.staticCallees(f) {
+			if h == self {
+				n++
+				if g.Name.Name != "ShallowClone" {
+					ok = false
+				}
+			}
+		}
+	}
+	return ok && n > 0
 }
